@@ -206,3 +206,100 @@ func runSessClean(w *world, j *judge, cs childSpec) error {
 	j.b.DistinctS(fmt.Sprintf("sessclean-resets|%d|%d", cs.Shard, len(resets)))
 	return nil
 }
+
+// keyPermWords: what an admin may write behind read= / write= of a key entry. Documented:
+// anyone, user, admin (or nothing). Everything else must make the entry grant nothing.
+var keyPermWords = []string{"", "anyone", "user", "admin", "self", "Self", "SELF", "dynamic", "Dynamic", "notfound", "notsupported", "invalid", "root", "superuser",
+	"4", "3", "1", "-1", "0", "Admin", "USER", "AnyOne", "admin ", " user", "adminx", "use", "permitself", "PermitAdmin", "*", "admin,self"}
+
+// runKeyPerm configures one key per (read word, write word) pair and presents every key.
+func runKeyPerm(w *world, j *judge, cs childSpec) error {
+	r := vlib.NewRand(cs.Seed, "C12/keyperm", uint64(cs.Shard))
+	var list []cfgKey
+	for _, a := range keyPermWords {
+		for _, b := range keyPermWords {
+			list = append(list, cfgKey{Key: "P" + randKey(r, r.Range(6, 16)), R: a, W: b, Tag: "perm[" + a + "|" + b + "]"})
+		}
+	}
+	vlib.Shuffle(r, list)
+	if err := w.setKeys(list); err != nil {
+		return err
+	}
+	targets := []target{
+		{"/verif/p/m1/m1", mTarget{"plain", mDynamic, mDynamic}}, {"/verif/p/2/2", mTarget{"plain", mUser, mUser}}, {"/verif/p/3/3", mTarget{"plain", mAdmin, mAdmin}},
+		{"/verif/p/4/4", mTarget{"plain", mSelf, mSelf}}, {"/api/v1/verif/e/4/3", mTarget{"endpoint", mSelf, mAdmin}},
+	}
+	gp := []methodVar{{"GET", "", ""}, {"POST", "", ""}}
+	w.b.Count("table_cells_planned", int64(len(list)*len(targets)*len(gp)))
+	for i, k := range list {
+		form := "Bearer " + k.Key
+		if i%3 == 1 {
+			form = "Basic " + b64(k.Key+":")
+		}
+		p := prepared{cv: credVal{Tag: "keyperm/" + k.Tag, Authz: form}, ok: true}
+		for _, t := range targets {
+			for _, mv := range gp {
+				j.tableCell("keyperm", p, t, mv, "")
+				j.b.Count("keyperm_cells", 1)
+			}
+		}
+	}
+	j.b.Count("keyperm_keys", int64(len(list)))
+	j.b.Count("keyperm_keys_model_valid", int64(len(w.model.Keys)))
+	return nil
+}
+
+// runExpiredTwice: expired session cookies are presented again and again, the session
+// cleaner runs, and then new logins and cookie requests follow. Everything must keep
+// being answered (the child-wide hang monitor in guard.go decides a stall structurally).
+func runExpiredTwice(w *world, j *judge, cs childSpec) error {
+	r := vlib.NewRand(cs.Seed, "C12/expiredtwice", uint64(cs.Shard))
+	targets := diagTargets()
+	gp := []methodVar{{"GET", "", ""}, {"POST", "", ""}, {"HEAD", "", ""}}
+	cell := func(mode string, p prepared, t target, mv methodVar) {
+		w.b.Count("table_cells_planned", 1)
+		j.tableCell(mode, p, t, mv, "")
+	}
+	for round := 0; round < cs.N; round++ {
+		var ps []prepared
+		n := r.Range(3, 10)
+		for i := 0; i < n; i++ {
+			a, b := r.Range(1, 4), r.Range(1, 4)
+			p := w.prepareCred(credVal{Tag: fmt.Sprintf("cookie-expired-repeat/%d/%d", a, b), SessKind: "expired", SessR: a, SessW: b}, nil)
+			if !p.ok {
+				return fmt.Errorf("login: %s", p.skip)
+			}
+			ps = append(ps, p)
+		}
+		w.expireSessions()
+		// one live session that is used in between (its own mutex is taken and released)
+		livep := w.prepareCred(credVal{Tag: "cookie-valid/3/3", SessKind: "valid", SessR: 3, SessW: 3}, nil)
+		if !livep.ok {
+			return fmt.Errorf("login: %s", livep.skip)
+		}
+		for rep := 0; rep < 3; rep++ {
+			for _, p := range ps {
+				t, mv := vlib.Pick(r, targets...), vlib.Pick(r, gp...)
+				cell("expired-repeat", p, t, mv)
+				j.b.Count("expired_cookie_presentations", 1)
+				cell("expired-repeat", livep, vlib.Pick(r, targets...), mv)
+			}
+		}
+		w.progress.Add(1)
+		api.VerifCleanSessions()
+		w.b.Count("cleaner_passes", 1)
+		// afterwards: the same cookies once more (now unknown), the live one, and new logins
+		for _, p := range ps {
+			cell("expired-repeat-after-clean", p, vlib.Pick(r, targets...), vlib.Pick(r, gp...))
+			j.b.Count("expired_cookie_presentations", 1)
+		}
+		cell("expired-repeat-after-clean", livep, target{"/verif/p/3/3", mTarget{"plain", mAdmin, mAdmin}}, gp[0])
+		np := w.prepareCred(credVal{Tag: "cookie-valid/2/4", SessKind: "valid", SessR: 2, SessW: 4}, nil)
+		if !np.ok {
+			return fmt.Errorf("login after clean: %s", np.skip)
+		}
+		cell("expired-repeat-after-clean", np, target{"/verif/p/2/4", mTarget{"plain", mUser, mSelf}}, gp[1])
+		j.b.Count("expired_repeat_rounds", 1)
+	}
+	return nil
+}
